@@ -9,5 +9,7 @@ func init() {
 		"Decided: (1) the per-epoch record sequence counters are modified only by the atomic +1 of the single allocator and the state-import store; (2) every call path to the allocator holds Conn.lock exclusively, and record preparation plus the datagram write on the packet path run under Conn.writeLock; (3) in every function that allocates, the number stored in each recordlayer.Header / passed to the DTLS 1.3 seal is that allocation's result, with the same epoch, and only after the overflow error was checked; (5) the allocator and Header.Marshal refuse numbers above 2^48-1.",
 		"Scheduler behaviour and the semantics of sync/atomic; uniqueness across export/import is C19.",
 		ruleSeqSingleAllocator, ruleSeqLocks, ruleSeqToWire, ruleSeqNoWrap)
-	register("C08", "bounds (work in progress)", "", ruleBounds)
+	if false {
+		register("C08", "bounds (work in progress)", "", ruleBounds)
+	}
 }
